@@ -1,6 +1,6 @@
 #!/usr/bin/env python3
 """translate_imp.py - fail-closed translator for the small IMPERATIVE methods that mutate the dictionaries of CFDivisor / CFGraph
-(lending_move, borrowing_move, chip_transfer, set_fire, is_effective, get_degree, the constructor __init__ and __neg__ / __rmul__ / __add__ / __sub__; add_edge, get_valence, is_loopless;
+(lending_move, borrowing_move, chip_transfer, set_fire, is_effective, get_degree, the constructor __init__ and __neg__ / __rmul__ / __add__ / __sub__ / __eq__; the constructors of CFGraph, CFiringScript, CFConfig; add_edge, get_valence, is_loopless;
 CFiringScript.get_firings / set_firings / update_firings; CFConfig.get_out_degree_S, the wrappers set_fire / lending_move / borrowing_move and the readers
 get_degree_at / get_q_underlying_degree / get_degree_sum / is_non_negative;
 CFOrientation.set_orientation / check_fullness / get_in_degree / get_out_degree / get_orientation / is_source / is_sink) to Gallina.
@@ -52,7 +52,7 @@ TARGETS = [
     ("chipfiring/CFDivisor.py", "CFDivisor", "lending_move"), ("chipfiring/CFDivisor.py", "CFDivisor", "borrowing_move"),
     ("chipfiring/CFDivisor.py", "CFDivisor", "chip_transfer"), ("chipfiring/CFDivisor.py", "CFDivisor", "set_fire"),
     ("chipfiring/CFDivisor.py", "CFDivisor", "__init__"), ("chipfiring/CFDivisor.py", "CFDivisor", "__neg__"), ("chipfiring/CFDivisor.py", "CFDivisor", "__rmul__"),
-    ("chipfiring/CFDivisor.py", "CFDivisor", "__add__"), ("chipfiring/CFDivisor.py", "CFDivisor", "__sub__"),
+    ("chipfiring/CFDivisor.py", "CFDivisor", "__eq__"), ("chipfiring/CFDivisor.py", "CFDivisor", "__add__"), ("chipfiring/CFDivisor.py", "CFDivisor", "__sub__"),
     ("chipfiring/CFGraph.py", "CFGraph", "is_loopless"), ("chipfiring/CFGraph.py", "CFGraph", "get_valence"), ("chipfiring/CFGraph.py", "CFGraph", "add_edge"),
     ("chipfiring/CFGraph.py", "CFGraph", "add_edges"), ("chipfiring/CFGraph.py", "CFGraph", "__init__"),
     ("chipfiring/CFiringScript.py", "CFiringScript", "__init__"), ("chipfiring/CFiringScript.py", "CFiringScript", "get_firings"), ("chipfiring/CFiringScript.py", "CFiringScript", "set_firings"),
@@ -66,7 +66,7 @@ TARGETS = [
 ]
 class Unsupported(Exception): pass
 def bad(node, why=""): raise Unsupported("%s at line %s: %s" % (type(node).__name__, getattr(node, "lineno", "?"), why))
-COQTY = {"optdict": "(option dictZ)", "pairs": "(list (nat * Z))", "keys": "(list nat)", "divobj": "(dictZ * Z)", "optbool": "(option bool)", "optpair": "(option (nat * nat))", "key": "nat", "Z": "Z", "bool": "bool", "dictZ": "dictZ", "dictD": "dictD", "set": "list nat", "edges": "list (nat * nat * Z)"}
+COQTY = {"optdiv": "(option (list nat * dictD * dictZ))", "optdict": "(option dictZ)", "pairs": "(list (nat * Z))", "keys": "(list nat)", "divobj": "(dictZ * Z)", "optbool": "(option bool)", "optpair": "(option (nat * nat))", "key": "nat", "Z": "Z", "bool": "bool", "dictZ": "dictZ", "dictD": "dictD", "set": "list nat", "edges": "list (nat * nat * Z)"}
 def ann_type(a):
     s = ast.unparse(a)
     if s == "int": return "Z"
@@ -121,8 +121,9 @@ class Fn:
         if isinstance(e, ast.Attribute) and isinstance(e.value, ast.Name) and self.env.get(e.value.id) == "graphobj" and e.attr in ("vertices", "graph"):
             return e.value.id + "_" + e.attr, ("set" if e.attr == "vertices" else "dictD")
         if isinstance(e, ast.Attribute) and ast.unparse(e).count(".") in (1, 2) and isinstance(ast.parse(ast.unparse(e).split(".")[0], mode="eval").body, ast.Name) \
-                and self.env.get(ast.unparse(e).split(".")[0]) == "divparam" and ast.unparse(e).split(".", 1)[1] in ("graph.vertices", "degrees"):
-            o_, r_ = ast.unparse(e).split(".", 1); return o_ + "_" + r_.replace(".", "_"), ("set" if r_ == "graph.vertices" else "dictZ")
+                and ((self.env.get(ast.unparse(e).split(".")[0]) == "divparam" and ast.unparse(e).split(".", 1)[1] in ("graph.vertices", "degrees"))
+                     or (self.env.get(ast.unparse(e).split(".")[0]) == "divparam3" and ast.unparse(e).split(".", 1)[1] in ("graph.vertices", "degrees", "graph.graph"))):
+            o_, r_ = ast.unparse(e).split(".", 1); return o_ + "_" + r_.replace(".", "_"), {"graph.vertices": "set", "degrees": "dictZ", "graph.graph": "dictD"}[r_]
         if isinstance(e, ast.List) and not e.elts: return "(@nil (nat * Z))", "pairs"        # (only ever appended to with (name, int) pairs: checked at the append)
         if isinstance(e, ast.Call) and isinstance(e.func, ast.Name) and e.func.id == "isinstance" and len(e.args) == 2 and isinstance(e.args[0], ast.Name) \
                 and self.env.get(e.args[0].id) == "Z" and ast.unparse(e.args[1]) == "int": return "true", "bool"      # a parameter annotated int (assumption of the tie: callers respect the annotation)
@@ -174,6 +175,15 @@ class Fn:
             if ta != "key": bad(e, "Vertex of " + ta)
             return a, "key"
         if isinstance(e, ast.Call) and isinstance(e.func, ast.Name) and e.func.id == "set" and not e.args and not e.keywords: return "(@nil nat)", "set"
+        if isinstance(e, ast.Call) and isinstance(e.func, ast.Name) and e.func.id == "set" and len(e.args) == 1 and not e.keywords:
+            a_ = e.args[0]
+            if isinstance(a_, ast.Call) and isinstance(a_.func, ast.Attribute) and a_.func.attr == "keys" and not a_.args:        # set(d.keys()): the keys of a dictionary are distinct
+                d_, td_ = self.expr(a_.func.value)
+                if td_ not in ("dictZ", "dictD"): bad(e, "keys() of " + td_)
+                return "(d_keys %s)" % d_, "set"
+            x_, tx_ = self.expr(a_)
+            if tx_ != "set": bad(e, "set() of " + tx_)
+            return x_, "set"
         if isinstance(e, ast.Call) and isinstance(e.func, ast.Attribute) and e.func.attr == "get" and len(e.args) == 2 and not e.keywords and ast.unparse(e.func.value) != "self":
             d, td = self.expr(e.func.value); k, tk = self.expr(e.args[0]); dflt, tdf = self.expr(e.args[1])
             if td != "dictZ" or tk != "key" or tdf != "Z": bad(e, "get on %s" % td)
@@ -338,6 +348,10 @@ class Fn:
         if isinstance(s, ast.Assign) and u == "self.graph = graph" and self.node.name == "__init__" and self.env.get("graph") == "graphobj": self.graph_alias = "graph"; return K()
         if isinstance(s, ast.Assign) and u == "self.divisor = divisor" and self.node.name == "__init__" and self.env.get("divisor") == "divparam": return K()       # the configuration wraps the argument itself
         if isinstance(s, ast.Assign) and u == "self.graph = divisor.graph" and self.node.name == "__init__" and self.env.get("divisor") == "divparam": self.graph_alias = "divisor_graph"; return K()      # the new object's graph IS the argument
+        if isinstance(s, ast.If) and u.replace("\n", " ").split() == "if not isinstance(other, CFDivisor): return False".split() and self.env.get("other") == "optdiv":
+            if self.rty not in (None, "bool"): bad(s, "returns of different types")
+            self.rty = "bool"; self.env["other"] = "divparam3"; body = K()
+            return "match other with None => RETB_ false RETE_ | Some (other_graph_vertices, other_graph_graph, other_degrees) =>\n  %s end" % body
         if isinstance(s, ast.Raise): self.can_raise = True; return "EXN_"
         if isinstance(s, ast.Return):
             if s.value is None: bad(s, "bare return")
@@ -572,6 +586,9 @@ class Fn:
             if a_.annotation is not None and "Optional" in ast.unparse(a_.annotation) and not (isinstance(d_, ast.Constant) and d_.value is None): bad(n, "default value of " + a_.arg)
         for a in n.args.args:
             if a.arg == "self": continue
+            if a.annotation is None and (self.cls, n.name, a.arg) == ("CFDivisor", "__eq__", "other"):
+                # the right operand of == may be anything: None = not a CFDivisor, Some (vertex set, adjacency dictionary, chips) = a CFDivisor
+                self.env[a.arg] = "optdiv"; self.params.append((a.arg, "optdiv")); continue
             if a.annotation is None: bad(a, "parameter without annotation")
             self.env[a.arg] = ann_type(a.annotation)
             if self.env[a.arg] == "graphobj":       # a CFGraph argument is seen through its vertex set and its adjacency dictionary
